@@ -2,6 +2,7 @@ package main
 
 import (
 	"bytes"
+	"compress/zlib"
 	"fmt"
 	"os"
 )
@@ -37,15 +38,34 @@ func c06Big(c *corrCtx) {
 	if c.thorough() {
 		sizes = append(sizes, 16<<20+3, 16700000)
 	}
+	type bigCase struct {
+		n    int
+		fill int // -1: incompressible; otherwise the one byte value the whole profile consists of
+	}
+	var cases []bigCase
 	for _, n := range sizes {
+		cases = append(cases, bigCase{n, -1})
+	}
+	// the most compressible profiles there are (one byte value throughout: DEFLATE reaches its 1032:1 limit), best and
+	// default compression — a profile is returned whole however small its compressed form
+	cases = append(cases, bigCase{4 << 20, 0x00}, bigCase{6<<20 + 1, 0xa5})
+	for ci, bc := range cases {
+		n := bc.n
 		p := make([]byte, n)
 		seed := r.next()
 		for i := range p {
+			if bc.fill >= 0 {
+				p[i] = byte(bc.fill)
+				continue
+			}
 			seed = seed*6364136223846793005 + 1442695040888963407
 			p[i] = byte(seed >> 56)
 		}
 		var files []seedFile
 		pd := randPngDesc(r, true, p)
+		if bc.fill >= 0 {
+			pd.iccZ = zlibCompress(p, []int{zlib.BestCompression, zlib.DefaultCompression}[ci%2])
+		}
 		b, _ := pd.build()
 		files = append(files, seedFile{"png", "png", b, 0})
 		wd := randWebpDesc(r, "VP8X", p)
